@@ -24,7 +24,6 @@ import (
 	"reflect"
 
 	compact_time "github.com/kstenerud/go-compact-time"
-	"github.com/kstenerud/go-concise-encoding/internal/common"
 )
 
 // Go Time
@@ -37,7 +36,7 @@ func generateTimeBuilder(ctx *Context) Builder { return globalTimeBuilder }
 func (_this *timeBuilder) String() string      { return reflect.TypeOf(_this).String() }
 
 func (_this *timeBuilder) BuildFromTime(ctx *Context, value compact_time.Time, dst reflect.Value) reflect.Value {
-	v, err := common.CompactTimeToGoTime(value)
+	v, err := value.AsGoTime()
 	if err != nil {
 		panic(err)
 	}
